@@ -41,6 +41,18 @@ def main(argv=None):
     # (the hostile-neighbourhood modes of rounds 12/13 roughly tripled the decoding work: the watchdog budgets, which only
     # matter when something hangs, are doubled)
     timeout = getattr(mod, "SHARD_TIMEOUT", {"quick": 240, "thorough": 1500})[a.tier] * float(os.environ.get("VERIF_TIMEOUT_SCALE", "2"))
+    # scratch directories of shards that were killed before their own clean-up ran (named ...-<pid>): removed when that process
+    # is gone
+    try:
+        import re as _re
+        import shutil as _shutil
+        for n_ in os.listdir(runner.SCRATCH):
+            m_ = _re.search(r"-(\d+)$", n_)
+            p_ = os.path.join(runner.SCRATCH, n_)
+            if m_ and os.path.isdir(p_) and not os.path.exists(f"/proc/{m_.group(1)}"):
+                _shutil.rmtree(p_, ignore_errors=True)
+    except OSError:
+        pass
     from . import harvest
     harvest.preload()          # constants of the tree under test, parsed once here and inherited by the forked shards
     opt_dump = os.environ.get("VERIF_OPT_PASS_DUMP")
